@@ -491,7 +491,7 @@ func c11Run(c *Ctx) {
 
 func init() {
 	addCheck(&Check{ID: "C11", Level: "exploration",
-		Rule:   "streams of 1-3 (thorough 1-5, plus a fixed 8-message stream) messages over an alphabet of 24 shapes (no body, Content-Length written with leading zeros, small body, SIP-like body, body starting with CRLF, LF-only line ends, 0-3 CRLF keep-alives, header lines of 4094..4098 / 8190..8194 / 20480 bytes ended by CRLF and by a bare LF, bodies of 4096 B and 60 KiB) through the REAL TCPServerTransport.receiveMessage on a simulated connection; segmentations: none, 1-byte segments, ALL single cuts and ALL pairs of cuts for streams up to 700 B (thorough 1500 B), for longer streams all single cuts (or all within +-3 of every line end, body boundary and 4096-multiple) and all pairs of those marks; plus the single cuts end-to-end through a full proxy to a TCP backend; non-trivial = at least one cut",
+		Rule:   "streams of 1-3 (thorough 1-5, plus a fixed 8-message stream) messages over an alphabet of 24 shapes (no body, Content-Length written with leading zeros, small body, SIP-like body, body starting with CRLF, LF-only line ends, 0-3 CRLF keep-alives, header lines of 4094..4098 / 8190..8194 / 20480 bytes ended by CRLF and by a bare LF, bodies of 4096 B and 60 KiB) through the REAL TCPServerTransport.receiveMessage on a simulated connection; segmentations: none, 1-byte segments, ALL single cuts and ALL pairs of cuts for streams up to 700 B (thorough 1500 B), for longer streams all single cuts (or all within +-3 of every line end, body boundary and 4096-multiple) and all pairs of those marks; plus the single cuts end-to-end through a full proxy to a TCP backend; plus the same single cuts with the sender stalling for two hours of virtual time at the cut (read deadlines are modelled on the virtual clock), direct and end to end; non-trivial = at least one cut",
 		Assume: []string{"a short read equals an additional cut, so cuts subsume short reads; coalescing of queued segments is the no-cut case"},
 		Run:    c11Run,
 		Replay: func(c *Ctx, raw json.RawMessage) string {
